@@ -113,6 +113,14 @@ class VMyList(list[VT]):
     pass
 
 
+class VRow(tuple[VT, VMyList[str]]):
+    """User generic whose pseudo-superclass holds another user generic subscribed concretely over the *same* TypeVar object:
+    VRow[int] is a (int, VMyList[str]) pair - the inner mapping VT -> str must not be replaced by the outer VT -> int."""
+
+    def __hash__(self):
+        return 127
+
+
 class VBox(Generic[VT]):
     def __repr__(self):
         return 'VBox()'
@@ -247,7 +255,10 @@ SHALLOW = {
     'Sized': (cabc.Sized, cabc.Sized),
     'ItemsView[str,int]': (cabc.ItemsView[str, int], cabc.ItemsView),
     'VBox[int]': (VBox[int], VBox),
+    'VRow[int]': (VRow[int], VRow),
+    'VRow[bytes]': (VRow[bytes], VRow),
 }
+_ROW_FIRST = {'VRow[int]': int, 'VRow[bytes]': bytes}
 
 # validators usable inside Annotated (named, total predicates)
 PREDICATES = {
@@ -486,6 +497,9 @@ def conforms(node, x):
         return (isinstance(x, collections.Counter) and
                 all(conforms(node[1], kk) and isinstance(vv, int) for kk, vv in x.items()))
     if k == 'shallow':
+        if node[1] in _ROW_FIRST:
+            return (isinstance(x, VRow) and len(x) == 2 and isinstance(x[0], _ROW_FIRST[node[1]]) and isinstance(x[1], VMyList)
+                    and all(isinstance(i, str) for i in x[1]))
         return isinstance(x, SHALLOW[node[1]][1])
     if k == 'type':
         return _is_type_member(node[1], x)
@@ -514,6 +528,10 @@ def _all_items_reject(child, items):
 
 def must_reject(node, x):
     k = node[0]
+    if k == 'shallow' and node[1] in _ROW_FIRST:
+        # both positions of the pair are always inspected; the items of the inner list are sampled
+        return not (isinstance(x, VRow) and len(x) == 2 and isinstance(x[0], _ROW_FIRST[node[1]]) and isinstance(x[1], VMyList)
+                    and not (x[1] and all(not isinstance(i, str) for i in x[1])))
     if k in ('cls', 'none', 'shallow', 'type', 'proto'):
         return not conforms(node, x)
     if k == 'any':
@@ -609,6 +627,8 @@ def realize(v):
         return _a_function
     if k == 'range':
         return range(int(v[1]))
+    if k == 'row':
+        return VRow((realize(v[1]), VMyList([realize(i) for i in v[2]])))
     items = None
     if k in ('list', 'tuple', 'set', 'fset', 'deque', 'mylist', 'userseq', 'userset', 'iter', 'gen'):
         items = [realize(i) for i in v[1]]
@@ -1013,6 +1033,9 @@ def conforming(draw, node, hashable=False, size=None):
             return ['items', [[['s', 'k%d' % j], ['i', j]] for j in range(draw(st.integers(0, 3)))]]
         if s.startswith('VBox'):
             return ['obj', 'VBox']
+        if s in _ROW_FIRST:
+            first = ['i', draw(st.integers(-3, 3))] if s == 'VRow[int]' else ['by', draw(st.sampled_from(['', 'a', 'xyz']))]
+            return ['row', first, [['s', t] for t in draw(st.lists(_small_text, max_size=4))]]
         raise ValueError(node)
     if k == 'type':
         sub = node[1]
